@@ -320,6 +320,17 @@ def contains_atom(ex, state, c, x):
         if o.kind == "dict":
             from . import models
             return models.dict_has(ex, state, c, x)
+    if isinstance(c, VListView):
+        from . import models
+        res = []
+        for g, xa in alts_of(x):
+            try:
+                el, t = elem_of_value(xa)
+            except Unsupported:
+                continue
+            if el == c.elem:
+                res.append(z3.And(g, z3.Contains(models.lv_seq(ex, state, c), z3.Unit(t))))
+        return disj(res)
     if isinstance(c, VStr):
         res = []
         for g, xa in alts_of(x):
@@ -411,6 +422,13 @@ def get_item(ex, state, v, k):
             state.assume(z3.And(e >= 0, e <= 255))
             return VInt(e)
         return VStr(z3.SubString(v.t, j, 1))
+    if isinstance(v, VListView):
+        from . import models
+        s_ = models.lv_seq(ex, state, v)
+        i = ex.num(k)
+        n = z3.Length(s_)
+        ex.raise_if(state, z3.Or(i >= n, i < -n), "IndexError")
+        return value_of_elem(v.elem, s_[ex.index_term(state, i, n)])
     if isinstance(v, VABytes):
         if not isinstance(k, (VInt, VBool)):
             ex.raise_if(state, z3.BoolVal(True), "TypeError")
